@@ -8,7 +8,7 @@
 #include <stdlib.h>
 #include <sys/types.h>
 
-size_t vf_w_count, vf_w_g, vf_w_ex;
+size_t vf_w_count, vf_w_g, vf_w_ex, vf_w_lo, vf_w_hi;
 int vf_w_exv;
 
 #ifndef VF_ESZ
@@ -29,6 +29,12 @@ typedef long vf_el_t;
 
 size_t vf_cmp_calls;
 _Bool vf_cmp_bad;
+/* extra invariant of the search loop, per group (the loop contract file is shared) */
+#ifdef VF_G_search_func
+#define VF_SEARCH_INV ((size_t)i <= vf_w_lo && j >= (ssize_t)vf_w_hi - 1)
+#else
+#define VF_SEARCH_INV 1
+#endif
 #include "memory.c"
 #include "array.c"
 
@@ -52,6 +58,28 @@ int vf_cmp_any(const void * a, const void * b, void * p)
     vf_cmp_calls++;
     return nondet_int();
 }
+/* "the array is sorted and cmp is a consistent total preorder", seen from one probe: there are
+ * boundaries lo <= hi such that the probe is greater than every element below lo, equal to the
+ * elements of [lo, hi) and smaller than every element from hi on.  (Sorted + consistent gives such
+ * boundaries for every probe; conversely the boundaries are all binary search may rely on.)
+ * The sign of a non-zero outcome is fixed, its magnitude arbitrary. */
+const void * vf_zone_base;
+int vf_cmp_zone(const void * a, const void * b, void * p)
+{
+    (void)a; (void)p;
+    if (!__CPROVER_r_ok(b, VF_ESZ) || !__CPROVER_same_object(b, vf_zone_base) || __CPROVER_POINTER_OFFSET(b) % VF_ESZ != 0) {
+        vf_cmp_bad = 1;
+        return 0;
+    }
+    vf_cmp_calls++;
+    {
+        const size_t k = __CPROVER_POINTER_OFFSET(b) / VF_ESZ;
+        int m = nondet_int();
+        __CPROVER_assume(m > 0);
+        return k < vf_w_lo ? m : (k < vf_w_hi ? 0 : -m);
+    }
+}
+cstl_compare_func_t * const vf_anchor_cmp_zone = vf_cmp_zone;
 cstl_compare_func_t * const vf_anchor_cmp = vf_cmp;
 cstl_compare_func_t * const vf_anchor_cmp_any = vf_cmp_any;
 cstl_swap_func_t * const vf_anchor_swap = cstl_swap;
@@ -77,14 +105,38 @@ ENSURES(EL(arr, vf_w_g) == OLD(EL(arr, vf_w_count - 1 - vf_w_g)))
 
 /* search: for arbitrary comparison outcomes every probe lies inside the array, the loop
  * terminates, and the result is -1 or the index of a probe that compared equal */
+#ifndef VF_G_search_func
 ssize_t cstl_raw_array_search(const void * const arr, const size_t count, const size_t size,
                               const void * const ex, cstl_compare_func_t * const cmp, void * const priv)
 REQUIRES(R_PRE(arr, count, size) && FRESH(ex, VF_ESZ) && cmp == vf_cmp_any && !vf_cmp_bad)
 ASSIGNS(vf_cmp_calls, vf_cmp_bad)
 ENSURES(RESULT >= -1 && RESULT < (ssize_t)count && !vf_cmp_bad)
 ;
+#endif
+
+#ifdef VF_G_search_func
+/* search on a sorted array (zone form): an index whose element compares equal iff one exists */
+ssize_t cstl_raw_array_search(const void * const arr, const size_t count, const size_t size,
+                              const void * const ex, cstl_compare_func_t * const cmp, void * const priv)
+REQUIRES(R_PRE(arr, count, size) && FRESH(ex, VF_ESZ) && cmp == vf_cmp_zone && !vf_cmp_bad && vf_zone_base == arr)
+REQUIRES(vf_w_lo <= vf_w_hi && vf_w_hi <= count)
+ASSIGNS(vf_cmp_calls, vf_cmp_bad)
+ENSURES(!vf_cmp_bad)
+ENSURES(vf_w_lo < vf_w_hi ==> (RESULT >= 0 && (size_t)RESULT >= vf_w_lo && (size_t)RESULT < vf_w_hi))
+ENSURES(vf_w_lo == vf_w_hi ==> RESULT == -1)
+;
+#endif
 
 #ifndef VF_NATIVE
+const void * nondet_cptr(void);
+void h_search_func(void)
+{
+    void * arr, * ex, * priv; size_t count = nondet_size_t();
+    VF_IN_SIZE(count); VF_IN_SIZE(lo); VF_IN_SIZE(hi);
+    vf_zone_base = nondet_cptr();     /* bound to the array by the precondition */
+    cstl_raw_array_search(arr, count, VF_ESZ, ex, vf_cmp_zone, priv);
+    VF_END();
+}
 void h_find(void)
 {
     void * arr, * ex, * priv; size_t count = nondet_size_t();
